@@ -67,7 +67,8 @@ FLAVOURS = {
 POSITIONS = ['first', 'middle', 'last']
 ON_ERROR = ['return', 'raise']
 VERBOSE = [0, 3]
-IMPORT_KINDS = ['good', 'raises', 'syntax', 'missing', 'packaged', 'packaged_index0', 'good_twice']
+IMPORT_KINDS = ['good', 'raises', 'syntax', 'missing', 'packaged', 'packaged_index0', 'good_twice', 'rotates_syspath',
+                'root_first_on_syspath', 'root_inside_syspath', 'root_first_on_syspath_index0']
 
 
 def required_cells(tier):
@@ -94,8 +95,9 @@ def build(outcome, flavour, pos):
     return '\n'.join(L)
 
 
-def monitored(ctx, what, fn, case, describe):
-    """call fn() between two state snapshots with the loop tracker on"""
+def monitored(ctx, what, fn, case, describe, path_as_multiset=False):
+    """call fn() between two state snapshots with the loop tracker on.  path_as_multiset: the monitored code itself
+    re-orders sys.path on purpose; then 'the entries it had before' is judged as a multiset"""
     before = monitors.ProcState()
     real_out, real_err = sys.stdout, sys.stderr
     result = None
@@ -106,6 +108,8 @@ def monitored(ctx, what, fn, case, describe):
             result = ('raised', ex)
     after = monitors.ProcState()
     diffs = before.diff(after)
+    if path_as_multiset and sorted(before.path) == sorted(after.path):
+        diffs = [d for d in diffs if d[0] != 'sys.path']
     ctx.event('state_snapshots_compared')
     # put the process back so that one leak does not cascade into every later case
     sys.stdout, sys.stderr = real_out, real_err
@@ -191,6 +195,12 @@ def make_import_targets(root):
     w('pkgc12_zz/sub/__init__.py', '')
     t['packaged'] = w('pkgc12_zz/sub/leaf.py', 'from pkgc12_zz import sub\nY = 2\n')
     t['packaged_index0'] = t['packaged']
+    # import-time code that re-orders sys.path (every entry is kept): the temporary entry moves with the others
+    t['rotates_syspath'] = w('rot_zz/improt_zz.py', 'import sys\n_first = sys.path.pop(0)\nsys.path.append(_first)\nZ = 3\n')
+    # the module's import root is already on sys.path (at the front / in the middle) when it is imported by path
+    t['root_first_on_syspath'] = w('onpath_zz/impon_zz.py', 'W = 4\n')
+    t['root_inside_syspath'] = t['root_first_on_syspath']
+    t['root_first_on_syspath_index0'] = t['root_first_on_syspath']
     return t
 
 
@@ -204,14 +214,24 @@ def check_imports(ctx):
         case = {'kind': 'import', 'import_kind': kind}
         ctx.evaluation()
         ctx.nontrivial(('import', kind))
-        kw = {'index': 0} if kind == 'packaged_index0' else {}
+        kw = {'index': 0} if kind.endswith('index0') else {}
         for name in [k for k in sys.modules if k.endswith('_zz') or k.startswith('pkgc12_zz')]:
             if kind != 'good_twice':
                 del sys.modules[name]
-        result, ok = monitored(ctx, 'utils.import_module_from_path(%s)' % kind,
-                               lambda: utils.import_module_from_path(p, **kw), case, 'target %s' % p)
+        saved_path = list(sys.path)
+        if kind.startswith('root_first'):
+            sys.path.insert(0, os.path.dirname(p))
+        elif kind.startswith('root_inside'):
+            sys.path.insert(len(sys.path) // 2, os.path.dirname(p))
+        try:
+            result, ok = monitored(ctx, 'utils.import_module_from_path(%s)' % kind,
+                                   lambda: utils.import_module_from_path(p, **kw), case, 'target %s' % p,
+                                   path_as_multiset=(kind == 'rotates_syspath'))
+        finally:
+            sys.path[:] = saved_path
         if ok:
-            if kind in ('good', 'good_twice', 'packaged', 'packaged_index0') and result[0] != 'returned':
+            if kind in ('good', 'good_twice', 'packaged', 'packaged_index0', 'rotates_syspath', 'root_first_on_syspath',
+                        'root_inside_syspath', 'root_first_on_syspath_index0') and result[0] != 'returned':
                 ctx.violation('import-failed', 'importing the %s module by path raised %r' % (kind, result[1]), case)
             else:
                 ctx.cell('import:' + kind)
